@@ -169,7 +169,9 @@ func init() {
 					c.Count("compile-error")
 					continue
 				}
-				args := []ugo.Object{pool[r.Intn(len(pool))], pool[r.Intn(len(pool))]}
+				// fresh argument objects for every case (scripts mutate them) and never the same
+				// container object twice (the request line cannot express aliasing between arguments)
+				args := []ugo.Object{argPool()[r.Intn(len(pool))], argPool()[r.Intn(len(pool))]}
 				rec := r.Bool()
 				optS := "-"
 				if rec {
